@@ -18,7 +18,7 @@ var rules = []*Rule{
 	{ID: "R3", Title: "LOCKSET: every shared mutable field has a common guard", Props: []string{"C08"}, Run: func(p *Prog) []Ob { return append(ruleR3(p), ruleR3c(p)...) }},
 	{ID: "R6", Title: "SENTINEL-IDENTITY: compared sentinels arrive unwrapped and alive", Props: []string{"C03", "C04", "C09", "C10", "C12"}, Run: ruleR6},
 	{ID: "R7", Title: "TAXONOMY and GUARDS", Props: []string{"C04", "C03", "C07", "C09", "C10", "C11", "C12", "C14", "C19"}, Run: ruleR7},
-	{ID: "R8", Title: "KEY-EQUALITY: a hash hit is only a candidate", Props: []string{"C09", "C13", "C14"}, Run: ruleR8},
+	{ID: "R8", Title: "KEY-EQUALITY: a hash hit is only a candidate", Props: []string{"C09", "C13", "C14", "C11"}, Run: ruleR8},
 	{ID: "R10", Title: "DECODER-VALIDATION: nothing is returned before it is checked", Props: []string{"C14", "C07"}, Run: ruleR10},
 	{ID: "R11", Title: "COPY-LOOP: every record read is accounted for", Props: []string{"C01", "C05", "C07", "C11", "C12", "C17"}, Run: ruleR11},
 	{ID: "R12", Title: "EFFECT-CONFINEMENT: who can change a log file", Props: []string{"C19", "C20"}, Run: ruleR12},
@@ -36,6 +36,12 @@ var rules = []*Rule{
 	{ID: "R21", Title: "HEAD-SCAN-BOUND", Props: []string{"C08"}, Run: ruleR21},
 	{ID: "R9", Title: "FORMAT-TABLES: encoder = decoder = documented layout", Props: []string{"C13", "C17", "C11", "C09"}, Run: ruleR9},
 	{ID: "R24", Title: "USE-AFTER-ERROR: placeholder results of failed calls never reach a success", Props: []string{"C01", "C02", "C03", "C04", "C06", "C07", "C08", "C09", "C10", "C12", "C13", "C20"}, Run: ruleR24},
+	{ID: "R25", Title: "BACKUP-COMPLETENESS", Props: []string{"C20"}, Run: ruleR25},
+	{ID: "R26", Title: "HEAD-INDEX-LIVENESS", Props: []string{"C03", "C08"}, Run: ruleR26},
+	{ID: "R27", Title: "KEPT-READER-NOT-HEAD", Props: []string{"C03"}, Run: ruleR27},
+	{ID: "R28", Title: "GET-EXACT", Props: []string{"C04"}, Run: ruleR28},
+	{ID: "R29", Title: "ITEM-DERIVATION", Props: []string{"C10", "C11"}, Run: ruleR29},
+	{ID: "R30", Title: "CLOCK-INDEPENDENCE", Props: []string{"C03", "C04", "C09", "C10", "C13", "C02"}, Run: ruleR30},
 	{ID: "R4", Title: "LOCK-ORDER: acyclic acquisition graph, no re-acquisition", Props: []string{"C08"}, Run: ruleR4},
 }
 
@@ -168,7 +174,11 @@ func run(repo, prop, tier, outDir, verifDir string, list bool, onlyRule string) 
 		}
 		return 0
 	}
-	return conclude(p, prop, tier, outDir, verifDir, obs, ran, start)
+	var extra map[string]any
+	if tier == "thorough" {
+		extra = runThorough(p, prop, ran, obs, p.SpecDir)
+	}
+	return conclude(p, prop, tier, outDir, verifDir, obs, ran, start, extra)
 }
 
 var _ = sort.Strings
